@@ -1177,8 +1177,12 @@ def try_constant_set(expr: irast.Base) -> Optional[irast.ConstantSet]:
             return None
 
     if elements:
-        return irast.ConstantSet(
-            elements=tuple(elements), typeref=elements[0].typeref
+        # The elements may be of different (implicitly compatible) types,
+        # e.g. a scalar and its base, so use the type of the whole set.
+        typeref = (
+            expr.typeref if isinstance(expr, irast.Set)
+            else elements[0].typeref
         )
+        return irast.ConstantSet(elements=tuple(elements), typeref=typeref)
     else:
         return None
